@@ -1,4 +1,232 @@
-(* placeholder *)
+(* Props/C23.v — C23 "Universal identifiers round-trip".
+   Property theorems only; proofs are in Proofs/IdProofs.v.
+   The model (Model/Id.v) is a hand transcription of the regexes UNIVERSAL_ID,
+   RELATIVE_ID, LEGACY_TASK_DOT_CYCLE, LEGACY_CYCLE_SLASH_TASK into parsers,
+   and of tokenise / detokenise / legacy_tokenise / upgrade_legacy_ids; it is
+   tied to cylc/flow/id.py by the two C23 correspondence streams.
+
+   External behaviour: [is_space] (str.isspace, used by str.strip) and
+   [is_digit] (the regex class \d) are universally quantified, with the
+   hypotheses the proofs need about them; [c23_cpython_classes] shows that the
+   tables of the running CPython (regenerated into Gen/UniClasses.v) satisfy
+   these hypotheses.
+
+   VALID TOKENS ([valid_tokens]): every present value is non-empty, has no
+   white space at either end, and stays inside the character class of its field:
+     user, cycle            [^/:\n~]+          (a cycle containing ":" is NOT valid: the
+                                                regex admits one only through backtracking,
+                                                and "//1:a" re-parses as cycle "1" + selector "a")
+     workflow               seg(/seg)*  with seg in [^/:\n~]+
+     task, all selectors    [^/:\n]+
+     job                    "NN" or ASCII digits.
+   CANONICAL TOKENS ([canon sel t]): what the formatted identifier denotes — a
+   missing token above the lowest one is "*", the job is zero padded to two
+   digits, selectors survive only with selectors=True and only down to the
+   lowest token. *)
 From Coq Require Import List ZArith Bool.
-From Cylc Require Import Base.Util Model.Codes Model.Id.
-Theorem c23_placeholder : True. Proof. exact I. Qed.
+From Cylc Require Import Base.Util Gen.UniClasses Model.Id Proofs.IdProofs.
+Import ListNotations.
+Open Scope Z_scope.
+
+(* "For any valid identifier tokens, formatting and re-parsing yields the same
+   tokens (job numbers zero-padded)": tokenise(detokenise(t, selectors, relative))
+   = canon t.  The relative= flag given to tokenise is the one detokenise used,
+   and only matters for tokens without user and workflow. *)
+Theorem c23_detok_tok : forall (is_space : Z -> bool),
+  is_space 42 = false ->
+  (forall c, is_ascii_digit c = true -> is_space c = false) ->
+  forall sel rel t s,
+  valid_tokens is_space t -> detokenise sel rel t = DOk s ->
+  tokenise is_space (rel && negb (truthy (user t) || truthy (workflow t))) s
+  = Some (canon sel t).
+Proof. exact detok_tok. Qed.
+
+(* ... and valid tokens can always be formatted (no "No tokens provided", no
+   int() failure) as soon as one regular token is present. *)
+Theorem c23_format_total : forall (is_space : Z -> bool),
+  is_space 42 = false ->
+  (forall c, is_ascii_digit c = true -> is_space c = false) ->
+  forall sel rel t,
+  valid_tokens is_space t ->
+  truthy (user t) || truthy (workflow t) || truthy (cycle t) || truthy (task t)
+  || truthy (job t) = true ->
+  exists s, detokenise sel rel t = DOk s.
+Proof. exact detok_total. Qed.
+
+(* "parsing then formatting a canonical identifier string yields the same
+   string": a canonical string is one that detokenise produces from valid
+   tokens; it parses, and formatting the parsed tokens gives it back. *)
+Theorem c23_tok_detok : forall (is_space : Z -> bool),
+  is_space 42 = false ->
+  (forall c, is_ascii_digit c = true -> is_space c = false) ->
+  forall sel rel t s,
+  valid_tokens is_space t -> detokenise sel rel t = DOk s ->
+  exists t', tokenise is_space (rel && negb (truthy (user t) || truthy (workflow t))) s
+             = Some t' /\ detokenise sel rel t' = DOk s.
+Proof. exact tok_detok. Qed.
+
+(* "Relative and absolute forms agree on the task part": parsing the full
+   identifier and taking Tokens.task gives the same tokens as parsing the
+   relative identifier (Tokens.relative_id / relative_id_with_selectors) with
+   relative=True. *)
+Theorem c23_relative_absolute : forall (is_space : Z -> bool),
+  is_space 42 = false ->
+  (forall c, is_ascii_digit c = true -> is_space c = false) ->
+  forall sel t sa sr,
+  valid_tokens is_space t ->
+  detokenise sel false t = DOk sa ->
+  detokenise sel true (task_part t) = DOk sr ->
+  exists ta tr,
+    tokenise is_space false sa = Some ta /\ tokenise is_space true sr = Some tr
+    /\ task_part ta = tr.
+Proof. exact relative_absolute. Qed.
+
+(* "legacy task.cycle and cycle/task identifiers upgrade to the equivalent
+   tokens".  For valid legacy fields ([legacy_ok]: task in [^~:/\n]+, cycle =
+   a \d character followed by [^~.:/\n]*, optional selector, no white space
+   at the edges):
+
+   task.cycle[:sel]  is recognised, upgrade_legacy_ids rewrites it to
+   //cycle/task[:sel] (cycle/task[:sel] with relative=True), and the new
+   identifier parses to exactly the legacy tokens. *)
+Theorem c23_legacy_dot_upgrade : forall (is_space is_digit : Z -> bool),
+  is_space 42 = false ->
+  (forall c, is_ascii_digit c = true -> is_space c = false) ->
+  (forall c, is_digit c = true -> l_cyc c = true) ->
+  forall tk d cr sel w,
+  legacy_ok is_space is_digit tk d cr sel ->
+  let lt := legacy_tokens tk (d :: cr) sel in
+  let old := dot_form tk (d :: cr) sel in
+  let new := slash_form tk (d :: cr) sel in
+  legacy_tokenise is_space is_digit old = Some lt
+  /\ upgrade_legacy_ids is_space is_digit false [w; old] = [w; 47 :: 47 :: new]
+  /\ upgrade_legacy_ids is_space is_digit true [old] = [new]
+  /\ tokenise is_space false (47 :: 47 :: new) = Some lt
+  /\ tokenise is_space true new = Some lt.
+Proof.
+  intros is_space is_digit H1 H2 H3 tk d cr sel w L lt old new.
+  pose proof (lg_tokenise_dot is_space is_digit H3 tk d cr sel L) as Ht.
+  destruct (lg_upgrade is_space is_digit tk d cr sel L old w Ht) as [Ha Hr].
+  repeat split; auto.
+  - exact (lg_tok_new is_space is_digit H1 H2 H3 tk d cr sel L false).
+  - exact (lg_tok_new is_space is_digit H1 H2 H3 tk d cr sel L true).
+Qed.
+
+(* cycle/task[:sel] : the same, PROVIDED the cycle has at least two characters *)
+Theorem c23_legacy_slash_upgrade : forall (is_space is_digit : Z -> bool),
+  is_space 42 = false ->
+  (forall c, is_ascii_digit c = true -> is_space c = false) ->
+  (forall c, is_digit c = true -> l_cyc c = true) ->
+  forall tk d cr sel w,
+  legacy_ok is_space is_digit tk d cr sel ->
+  cr <> [] ->
+  let lt := legacy_tokens tk (d :: cr) sel in
+  let old := slash_form tk (d :: cr) sel in
+  legacy_tokenise is_space is_digit old = Some lt
+  /\ upgrade_legacy_ids is_space is_digit false [w; old] = [w; 47 :: 47 :: old]
+  /\ upgrade_legacy_ids is_space is_digit true [old] = [old]
+  /\ tokenise is_space false (47 :: 47 :: old) = Some lt
+  /\ tokenise is_space true old = Some lt.
+Proof.
+  intros is_space is_digit H1 H2 H3 tk d cr sel w L Hcr lt old.
+  pose proof (lg_tokenise_slash is_space is_digit H3 tk d cr sel L Hcr) as Ht.
+  destruct (lg_upgrade is_space is_digit tk d cr sel L old w Ht) as [Ha Hr].
+  repeat split; auto.
+  - exact (lg_tok_new is_space is_digit H1 H2 H3 tk d cr sel L false).
+  - exact (lg_tok_new is_space is_digit H1 H2 H3 tk d cr sel L true).
+Qed.
+
+(* The full statement of the property for the cycle/task form — every valid
+   legacy cycle/task identifier is recognised — is FALSE of the faithful model:
+   the implementation's LEGACY_CYCLE_SLASH_TASK needs \d[^~.:/\n]+ , so a
+   one-character cycle ("1/a", the usual integer-cycling case) is not
+   recognised and upgrade_legacy_ids leaves the ids unchanged (finding
+   idstr:legacy-slash-one-char-cycle; proposed_fixes/C23-legacy-slash-one-char-cycle.diff). *)
+Definition c23_legacy_slash_upgrade_full (is_space is_digit : Z -> bool) : Prop :=
+  forall tk d cr sel,
+  legacy_ok is_space is_digit tk d cr sel ->
+  legacy_tokenise is_space is_digit (slash_form tk (d :: cr) sel)
+  = Some (legacy_tokens tk (d :: cr) sel).
+
+Theorem c23_legacy_slash_one_char_refuted :
+  ~ c23_legacy_slash_upgrade_full is_space_tbl is_digit_tbl.
+Proof.
+  intros H. specialize (H [97] 49 [] None).    (* "1/a" *)
+  assert (L : legacy_ok is_space_tbl is_digit_tbl [97] 49 [] None).
+  { constructor; cbn; auto; try split; vm_compute; reflexivity. }
+  specialize (H L). vm_compute in H. discriminate H.
+Qed.
+
+(* ---------- the hypotheses hold of the running CPython's tables ---------- *)
+Lemma ranges_disjoint_from lo hi rs :
+  forallb (fun r => (snd r <? lo) || (hi <? fst r)) rs = true ->
+  forall c, lo <= c <= hi -> in_ranges c rs = false.
+Proof.
+  unfold in_ranges. induction rs as [|r rs IH]; cbn; [reflexivity|].
+  intros H c Hc. apply andb_true_iff in H. destruct H as [H1 H2].
+  rewrite (IH H2 c Hc), orb_false_r.
+  apply orb_true_iff in H1. destruct H1 as [H1|H1]; apply Z.ltb_lt in H1.
+  - apply andb_false_iff. right. apply Z.leb_gt. destruct Hc. eapply Z.lt_le_trans; eauto.
+  - apply andb_false_iff. left. apply Z.leb_gt. destruct Hc. eapply Z.le_lt_trans; eauto.
+Qed.
+
+Theorem c23_cpython_classes :
+  is_space_tbl 42 = false
+  /\ (forall c, is_ascii_digit c = true -> is_space_tbl c = false)
+  /\ (forall c, is_digit_tbl c = true -> l_cyc c = true).
+Proof.
+  split; [vm_compute; reflexivity|]. split.
+  - intros c H. unfold is_ascii_digit in H. apply andb_true_iff in H. destruct H as [H1 H2].
+    apply Z.leb_le in H1. apply Z.leb_le in H2.
+    apply (ranges_disjoint_from 48 57); [vm_compute; reflexivity|]. split; assumption.
+  - intros c H. unfold l_cyc, c_user.
+    destruct (Z.eqb_spec c 47) as [->|_]; [vm_compute in H; discriminate H|].
+    destruct (Z.eqb_spec c 58) as [->|_]; [vm_compute in H; discriminate H|].
+    destruct (Z.eqb_spec c 10) as [->|_]; [vm_compute in H; discriminate H|].
+    destruct (Z.eqb_spec c 126) as [->|_]; [vm_compute in H; discriminate H|].
+    destruct (Z.eqb_spec c 46) as [->|_]; [vm_compute in H; discriminate H|].
+    reflexivity.
+Qed.
+
+(* ---------- non-vacuity ---------- *)
+(* ~u/a/b:ws//2020:cs/t~.x:ts/4:js  — valid tokens with every field present *)
+Definition ex_t : tokens :=
+  mk (Some [117]) (Some [97; 47; 98]) (Some [119; 115]) (Some [50; 48; 50; 48]) (Some [99; 115])
+     (Some [116; 126; 46; 120]) (Some [116; 115]) (Some [52]) (Some [106; 115]).
+Example c23_ex_valid : valid_tokens is_space_tbl ex_t.
+Proof. constructor; cbn; repeat split; vm_compute; reflexivity. Qed.
+Example c23_ex_format :
+  detokenise true false ex_t
+  = DOk [126;117;47;97;47;98;58;119;115;47;47;50;48;50;48;58;99;115;47;116;126;46;120;58;116;115;
+         47;48;52;58;106;115].
+Proof. vm_compute. reflexivity. Qed.
+Example c23_ex_roundtrip :
+  exists s, detokenise true false ex_t = DOk s
+            /\ tokenise is_space_tbl false s = Some (canon true ex_t)
+            /\ job (canon true ex_t) = Some [48; 52].
+Proof. eexists. repeat split; vm_compute; reflexivity. Qed.
+(* a gap (user and cycle but no workflow) is printed and re-read as "*" *)
+Example c23_ex_gap :
+  let t := mk (Some [117]) None None (Some [49]) None None None None None in
+  detokenise false false t = DOk [126;117;47;42;47;47;49]
+  /\ workflow (canon false t) = Some [42].
+Proof. split; vm_compute; reflexivity. Qed.
+(* legacy: "foo.1:s" and "10/foo:s" are recognised and upgraded *)
+Example c23_ex_legacy :
+  legacy_ok is_space_tbl is_digit_tbl [102;111;111] 49 [] (Some [115])
+  /\ upgrade_legacy_ids is_space_tbl is_digit_tbl false [[119]; [102;111;111;46;49;58;115]]
+     = [[119]; [47;47;49;47;102;111;111;58;115]]
+  /\ upgrade_legacy_ids is_space_tbl is_digit_tbl false [[119]; [49;48;47;102;111;111]]
+     = [[119]; [47;47;49;48;47;102;111;111]]
+  /\ upgrade_legacy_ids is_space_tbl is_digit_tbl false [[119]; [49;47;102;111;111]]
+     = [[119]; [49;47;102;111;111]].     (* the finding: "1/foo" is left alone *)
+Proof.
+  split; [constructor; cbn; auto; try split; vm_compute; reflexivity|].
+  repeat split; vm_compute; reflexivity.
+Qed.
+(* the excluded class really is different: a cycle with ":" does not round-trip *)
+Example c23_ex_cycle_colon :
+  let t := mk None None None (Some [49; 58; 97]) None None None None None in
+  detokenise false false t = DOk [47;47;49;58;97]
+  /\ option_map cycle (tokenise is_space_tbl false [47;47;49;58;97]) = Some (Some [49]).
+Proof. split; vm_compute; reflexivity. Qed.
